@@ -20,7 +20,7 @@ META = dict(
           "{csc,csr,coo,lil} (also with explicitly stored zeros), edge list (+n_nodes) via constructor and via "
           "set_edge_list, FromIGraph, copy(), undirected_copy() (undirected "
           "inputs), save->Load for graphml/graphmlz/pickle/gml, and for "
-          "SpatialNetwork/GeoNetwork save->Load with their grid file. Oracle: "
+          "SpatialNetwork/GeoNetwork save->Load with their grid file (node weight types None/surface/irrigation/custom), and save -> change node weights -> save -> Load on one object. Oracle: "
           "the class invariant I_net (pvm/mon/invariants.py) holds on the "
           "result, and N, n_links, link_density, adjacency, node weights "
           "(total, mean) and link_attribute('w') equal the input (floats to "
@@ -199,6 +199,30 @@ def one_input(ctx, inp, cid, tmp, heavy=True):
                     return Network.Load(fn, fileformat=fmt, silence_level=3)
                 ctx.count("roundtrips")
                 build(f"save-Load:{fmt}", rt, text=fmt != "pickle")
+            # history on one object: save, change the node weights (back
+            # to unit / to new values), save again, load the second file
+            fmt = FORMATS[int(ctx.rng("fmt", cid).integers(0, len(FORMATS)))]
+            for tag, w2 in (("unit", None),
+                            ("new", G.pos_weights(ctx.rng("w2", cid), n,
+                                                  "loguni"))):
+                def rt2(fmt=fmt, w2=w2):
+                    o = mk(A)
+                    f1 = os.path.join(tmp, f"a.{fmt}")
+                    f2 = os.path.join(tmp, f"b.{fmt}")
+                    o.save(f1, fileformat=fmt)
+                    o.node_weights = w2
+                    o.save(f2, fileformat=fmt)
+                    return Network.Load(f2, fileformat=fmt, silence_level=3)
+                ok2, net2 = ctx.call(rt2)
+                ctx.count("roundtrips")
+                if not ok2:
+                    ctx.violation(f"save-change-weights-save-Load:raises:"
+                                  f"{type(net2).__name__}:{icls}",
+                                  {"exc": repr(net2), "fmt": fmt}, cid)
+                else:
+                    check_net(ctx, net2, {**inp, "w": w2},
+                              f"save-change-weights({tag})-save-Load", cid,
+                              text=fmt != "pickle")
     # spatial subclasses
     if heavy and not d:
         from pyunicorn.core import GeoNetwork, SpatialNetwork, GeoGrid, Grid
@@ -209,15 +233,24 @@ def one_input(ctx, inp, cid, tmp, heavy=True):
         sg = Grid(np.arange(3.), np.round(r.normal(size=(2, n)) * 8) / 8,
                   silence_level=3)
 
+        rg = ctx.rng("geo", cid)
+        nwt = [None, "surface", "irrigation", "custom"][int(
+            rg.integers(0, 4))]
+        wc = G.pos_weights(rg, n, "loguni")
+
         def geo_rt():
-            net = GeoNetwork(gg, adjacency=A, node_weight_type="surface",
-                             silence_level=3)
+            net = GeoNetwork(gg, adjacency=A, node_weight_type=(
+                "surface" if nwt == "custom" else nwt), silence_level=3)
+            if nwt == "custom":
+                net.node_weights = wc
             with_attr(net)
             fn = (os.path.join(tmp, "geo.graphml"),
                   os.path.join(tmp, "geo.grid"))
             net.save(fn, fileformat="graphml")
             return GeoNetwork.Load(fn, fileformat="graphml", silence_level=3)
         coslat = np.cos(np.float32(lat) * np.pi / 180)
+        coslat = {None: np.ones(n), "surface": coslat,
+                  "irrigation": coslat ** 2, "custom": wc}[nwt]
         inp_g = {**inp, "w": coslat}
         ok, net = ctx.call(geo_rt)
         ctx.count("roundtrips")
@@ -231,8 +264,9 @@ def one_input(ctx, inp, cid, tmp, heavy=True):
                       text=True, want_w=False)
             nw = net.node_weights
             if nw is None or not np.allclose(nw, coslat, rtol=1e-5):
-                ctx.violation(f"GeoNetwork.save-Load:node_weights!=cos-lat:"
-                              f"{icls}", {"got": nw, "want": coslat}, cid)
+                ctx.violation(f"GeoNetwork.save-Load:node_weights!=saved:"
+                              f"{icls}", {"got": nw, "want": coslat,
+                                          "node_weight_type": nwt}, cid)
             if not np.allclose(net.grid.lat_sequence(), np.float32(lat)):
                 ctx.violation(f"GeoNetwork.save-Load:grid-differs:{icls}",
                               {}, cid)
